@@ -658,7 +658,9 @@ func genAdvPeer(rt *rapid.T, nm *hx.NodeMachine, cfg genCfg) hx.NOp {
 			if adv.Tx != nil {
 				for _, in := range adv.Tx.Ins {
 					if pending[in.Txid] {
-						frozen = true // cites an output of a pending transaction (the spent / off-chain family draws from the pool)
+						// cites an output of a transaction that is only pending on this node: refused by Walk always, by
+						// PlayAndRepost since fix 46bdf76 (until then such candidates were not generated)
+						nm.Stat["in-block-candidate-cites-pending-output"]++
 					}
 					if in.Frozen != 0 {
 						frozen = true
